@@ -221,6 +221,8 @@ EXTRA_ENGINES = [
     ("Dedup", ["C04"], "TLA+ definition of Track.cleanDuplicates (runs of equal neighbours collapse to the first); every sequence x code replayed"),
     ("LikeMatch", ["C02"], "TLA+ model of compLike (LIKE of Track.query / getTracks) as coded; greedy = existential placement; every pair replayed"),
     ("EvenSplit", ["C11"], "TLA+ model of track / n as coded (equal consecutive blocks, remainder dropped: CoversAll refuted); every (size, n) replayed"),
+    ("AStar", ["C06"], "TLA+ state machine of the A* routing mode as coded (heuristic added into the propagated weights; ReportsALength refuted); every "
+                       "(graph, source, target) outcome set replayed"),
     ("BoundingBox", ["C19"], "TLA+ model of the mutable Bbox over shared corner objects; every operation history replayed"),
     ("TrackEdit", ["C01"], "TLA+ model of the feature table under edits of the observation list, partial effects of failing calls included; every "
                            "history replayed"),
